@@ -40,6 +40,11 @@ AcctWhy(e, side, name) ==
        \cup A(side.all1 = side.all0 + side.cyc, name \o "_acct")
        \cup A(side.ret = side.stopped, name \o "_stopret")
        \cup A(side.stopped = (side.post.stp = 1), name \o "_stopflag")
+       \cup A(e.pre.stp = 1 => side.stopped, name \o "_stoplost")          \* stopped until reset, whatever happens meanwhile
+       \cup (LET ov == OvFn(e)
+                 Rd(a) == IF a \in DOMAIN ov THEN ov[a] ELSE Fill(e.seed, a)
+                 isWdm == ~e.irq /\ Rd(At(e.pre.K, e.pre.PC)) = 66
+             IN A(side.wdm = (IF isWdm THEN <<Rd(At(e.pre.K, W16(e.pre.PC + 1)))>> ELSE <<>>), name \o "_wdmcb"))
 
 EquivWhy(e) ==
   A(e.pri.panic = e.alt.panic, "equiv_panic")
